@@ -37,6 +37,7 @@ structure Schema where
   mutation : String := "Mutation"
   isSubgraph : Bool := false     -- a subgraph knows @requires inputs only from the representation it is sent
   failed : List (String × String) := []   -- (type, field) coordinates whose only source is unavailable (fault reference)
+  denied : List (String × String) := []   -- (type, field) coordinates the authorizer denies (C14)
 
 def Schema.type? (s : Schema) (n : String) : Option TypeDef := s.types.find? (·.name == n)
 
@@ -231,6 +232,26 @@ def resolveEntities (s : Schema) (u : Universe) (reps : Json) : FVal :=
 
 abbrev Errs := List String
 
+/-- the declared type of a field of objType (`__typename` is String!) -/
+def fieldType (s : Schema) (objType name : String) : TRef :=
+  if name == "__typename" then .nonNull (.named "String")
+  else match (s.type? objType).bind fun (t : TypeDef) => t.fields.find? (fun (fd : FieldDef) => fd.name == name) with
+    | some fd => fd.type
+    | none => .named "String"
+
+/-- the argument values given in the operation (variables resolved; absent variables leave the argument out) -/
+def givenArgs (op : Op) (vars : List (String × Json)) (c : Collected) : List (String × Json) :=
+  c.args.filterMap fun (k, v) => (evalVal vars op.varDefaults v).map fun j => (k, j)
+
+def schemaArgDefaults (s : Schema) (objType name : String) : List (String × Json) :=
+  match (s.type? objType).bind fun (t : TypeDef) => t.fields.find? (fun (fd : FieldDef) => fd.name == name) with
+  | some fd => fd.argDefaults
+  | none => []
+
+/-- coerced argument values: the given ones, then the schema defaults of those not given -/
+def fieldArgs (s : Schema) (op : Op) (vars : List (String × Json)) (objType : String) (c : Collected) : List (String × Json) :=
+  givenArgs op vars c ++ (schemaArgDefaults s objType c.name).filter fun (k, _) => !(givenArgs op vars c).any (·.1 == k)
+
 mutual
   /-- ExecuteSelectionSet; `none` = a non-null field failed: the object itself becomes null -/
   def execSels (s : Schema) (u : Universe) (op : Op) (vars : List (String × Json)) (fuel : Nat) (objType : String)
@@ -238,29 +259,26 @@ mutual
     match fuel with
     | 0 => (some [], ["out of fuel"])
     | fuel + 1 =>
-    let (fields, _) := collect s op vars objType 4096 [] sels []
-    fields.foldl (fun (acc : Option (List (String × Json)) × Errs) c =>
+    (collect s op vars objType 4096 [] sels []).1.foldl (fun (acc : Option (List (String × Json)) × Errs) c =>
       match acc.1 with
       | none => acc
       | some out =>
-        let ftype : TRef :=
-          if c.name == "__typename" then .nonNull (.named "String")
-          else match (s.type? objType).bind fun t => t.fields.find? (·.name == c.name) with
-            | some fd => fd.type
-            | none => .named "String"
-        let argDefaults := match (s.type? objType).bind fun t => t.fields.find? (·.name == c.name) with
-          | some fd => fd.argDefaults
-          | none => []
-        let given := c.args.filterMap fun (k, v) => (evalVal vars op.varDefaults v).map fun j => (k, j)
-        let args := given ++ argDefaults.filter fun (k, _) => !given.any (·.1 == k)
-        let raw :=
-          if c.name == "_entities" then resolveEntities s u ((lookupKV args "representations").getD .null)
-          else if s.failed.contains (objType, c.name) then .err "the subgraph that owns this field failed"
-          else applyArgs u args (baseValue s.isSubgraph s.failed u i overlay c.name)
-        let (v, e) := complete s u op vars fuel ftype raw c.sels
-        match v with
-        | some j => (some (out ++ [(c.key, j)]), acc.2 ++ e)
-        | none => (none, acc.2 ++ e)) (some [], [])
+        match execField s u op vars fuel objType i overlay c with
+        | (some j, e) => (some (out ++ [(c.key, j)]), acc.2 ++ e)
+        | (none, e) => (none, acc.2 ++ e)) (some [], [])
+
+  /-- ExecuteField: the value of one collected field of an object of type objType; a denied coordinate is a field error -/
+  def execField (s : Schema) (u : Universe) (op : Op) (vars : List (String × Json)) (fuel : Nat) (objType : String)
+      (i : Nat) (overlay : Option Json) (c : Collected) : Option Json × Errs :=
+    match fuel with
+    | 0 => (some .null, ["out of fuel"])
+    | fuel + 1 =>
+    complete s u op vars fuel (fieldType s objType c.name)
+      (if c.name == "_entities" then resolveEntities s u ((lookupKV (fieldArgs s op vars objType c) "representations").getD .null)
+       else if s.denied.contains (objType, c.name) then .err "Unauthorized"
+       else if s.failed.contains (objType, c.name) then .err "the subgraph that owns this field failed"
+       else applyArgs u (fieldArgs s op vars objType c) (baseValue s.isSubgraph s.failed u i overlay c.name))
+      c.sels
 
   /-- CompleteValue; `none` = null in a non-null position (propagates to the parent) -/
   def complete (s : Schema) (u : Universe) (op : Op) (vars : List (String × Json)) (fuel : Nat) (t : TRef) (v : FVal)
